@@ -29,6 +29,11 @@ func (p *PoolAllocator[T]) Get() *Buffer[T] {
 
 func (p *PoolAllocator[T]) Put(b *Buffer[T]) {
 	mustSame(p.alloc.Capacity*p.alloc.Channels, b.Cap(), diffCapacity)
+	// zero the whole capacity, not just the current length, and restore
+	// the allocator's length, so that the next Get returns a buffer that
+	// cannot be told from a freshly allocated one.
+	b.data = b.data[:cap(b.data)]
 	b.clear()
+	b.data = b.data[:p.alloc.Length*p.alloc.Channels]
 	p.pool.Put(b)
 }
